@@ -36,3 +36,11 @@ Proof.
   split; [exact scan_len_wrap_small|].
   exists (mkInterval [0;0]%N 7 0 0). split; [now left|reflexivity].
 Qed.
+
+(* the checker accepts the model's output on the examples (and rejects a shortened interval) *)
+Example check_scan_example :
+  let sq := [0;1;2;3;3;2;1;0;0;1;1;0]%N in
+  let scs := map (fun j => lex_score (sub j 2 sq)) (seq 0 11) in
+  check_scan sq 5 2 scs (scan_raw lex_score sq 5 2) = true /\
+  check_scan sq 5 2 scs [mkS [0;1]%N 0 0 5; mkS [1;2]%N 1 1 5; mkS [2;1]%N 5 2 5; mkS [1;0]%N 6 3 5; mkS [0;0]%N 7 4 7] = false.
+Proof. vm_compute. split; reflexivity. Qed.
